@@ -7,6 +7,7 @@ CONSTANTS
   CondVals = {}
   Arity = 2
   Defect_TieBreakByPartialCmp = FALSE
+  Defect_NoopModifyUnchecked = FALSE
 INVARIANTS
   ExportCase
 CHECK_DEADLOCK FALSE
